@@ -42,6 +42,33 @@ MOD_POOL = [
 ]
 
 
+def prune_cfgdir(max_age=3 * 3600, every=1800):
+    """generated configuration files are scratch: what has not been written or re-used for three hours is removed (at most one sweep
+    per half hour, whoever comes first; concurrent runs only ever lose files none of them has touched for hours)"""
+    import shutil, time
+    marker = os.path.join(CFGDIR, ".pruned")
+    now = time.time()
+    try:
+        os.makedirs(CFGDIR, exist_ok=True)
+        if os.path.exists(marker) and now - os.path.getmtime(marker) < every:
+            return
+        with open(marker, "w") as f:
+            f.write("%d\n" % now)
+        for e in os.scandir(CFGDIR):
+            try:
+                if e.name == ".pruned" or now - e.stat().st_mtime < max_age:
+                    continue
+                if e.is_dir():
+                    if not os.path.exists(e.path[:-2] + ".conf") or now - os.path.getmtime(e.path[:-2] + ".conf") >= max_age:
+                        shutil.rmtree(e.path, ignore_errors=True)
+                else:
+                    os.unlink(e.path)
+            except OSError:
+                pass
+    except OSError:
+        pass
+
+
 class Rewrite:
     def __init__(self, name):
         self.name = name
@@ -314,6 +341,10 @@ class Cfg:
         key = hashlib.sha1((txt + "#%d" % k).encode()).hexdigest()[:16]
         path = os.path.join(CFGDIR, key + ".conf")
         if os.path.exists(path):
+            try:
+                os.utime(path)          # (in use: keeps it out of reach of prune_cfgdir)
+            except OSError:
+                pass
             return path
         if not k:
             with open(path, "w") as f:
